@@ -798,8 +798,8 @@ namespace Pistache::Http
         timeout_.disarm();
         auto buf = buf_.buffer();
 
-        auto fd = peer()->fd();
-        transport_->asyncWrite(fd, buf);
+        auto peer = this->peer();
+        transport_->asyncWrite(peer->fd(), buf, 0, peer->getID());
         transport_->flush();
 
         buf_.clear();
@@ -989,9 +989,9 @@ namespace Pistache::Http
 
 #undef OUT
 
-            auto fd = peer()->fd();
+            auto peer = this->peer();
 
-            return transport_->asyncWrite(fd, buffer)
+            return transport_->asyncWrite(peer->fd(), buffer, 0, peer->getID())
                 .then<std::function<Async::Promise<ssize_t>(ssize_t)>,
                       std::function<void(std::exception_ptr&)>>(
                     [=](ssize_t data) {
@@ -1087,11 +1087,13 @@ namespace Pistache::Http
         auto peer       = writer.peer();
         auto sockFd     = peer->fd();
 
+        const auto peerId = peer->getID();
+
         auto buffer = buf->buffer();
-        return transport->asyncWrite(sockFd, buffer, MSG_MORE)
+        return transport->asyncWrite(sockFd, buffer, MSG_MORE, peerId)
             .then(
                 [=](ssize_t) {
-                    return transport->asyncWrite(sockFd, FileBuffer(fileName));
+                    return transport->asyncWrite(sockFd, FileBuffer(fileName), 0, peerId);
                 },
                 Async::Throw);
 
